@@ -3,8 +3,9 @@
 // E3 over directory contents: the REAL truststore.NewX509TrustStore is run on real
 // scratch configuration roots (one per case, removed afterwards).
 //
-//	part "entries": every ordered sequence of <= N directory entries over a 12-kind
-//	                alphabet (= every multiset x every file-name ordering) x the three
+//	part "entries": every ordered sequence of <= N (quick 3, thorough 4) directory entries
+//	                over a 14-kind alphabet (= every multiset x every file-name ordering,
+//	                so a good entry sorts before, after and between bad ones) x the three
 //	                valid store types, in an ordinary named store "s";
 //	part "paths":   every store type x store name x kind of object found at the store
 //	                path (missing / directory / symlink to a directory / regular file),
@@ -23,6 +24,9 @@
 //     accepted, but a successful load must still return exactly the files' certificates.
 //   - the statement says "exactly the certificates of those files", not their order: the
 //     set (multiset of raw certificates) is judged, the order is only recorded.
+//   - "It then returns exactly the certificates of those files": a store that meets every
+//     condition must load; the refusal of a hand-labelled valid store is reported under its
+//     own key family (load/refused-valid-store:...), these cases are the positive controls.
 //   - a panic of the loader is reported as an infrastructure error, not as a violation.
 package main
 
@@ -75,6 +79,9 @@ var kinds = []kindDef{
 	{"subdir-with-cert", bad, bad, "not-regular-file"},
 	{"symlink-to-cert", bad, bad, "not-regular-file"},
 	{"dangling-symlink", bad, bad, "not-regular-file"},
+	// two more multi-certificate files (not in DESIGN's list): the SECOND certificate decides
+	{"pem-ca+leaf-issued-by-ca", bad, bad, "not-ca-or-self-signed"},
+	{"pem-ca+intermediate-ca", good, bad, "tsa-non-root"},
 }
 
 const (
@@ -90,6 +97,8 @@ const (
 	kSubdir
 	kSymlink
 	kDangling
+	kMultiLeaf
+	kMultiInter
 )
 
 func kindIndex(name string) int {
@@ -227,6 +236,12 @@ func buildMaterial() error {
 		mats[kSymlink][p] = material{inner: pki.PEM(c.Cert)}
 		hidden[string(c.Cert.Raw)] = "certificate behind a symlink"
 		mats[kDangling][p] = material{}
+		c = ca(fmt.Sprintf("c13 multi2-ca %d", p), 0, nil)
+		l = ee(fmt.Sprintf("c13 multi2-leaf-issued-by-ca %d", p), 2, issuer)
+		mats[kMultiLeaf][p] = material{file: pki.PEM(c.Cert, l.Cert), certs: []*x509.Certificate{c.Cert, l.Cert}}
+		c = ca(fmt.Sprintf("c13 multi3-ca %d", p), 0, nil)
+		c2 := ca(fmt.Sprintf("c13 multi3-intermediate-ca %d", p), 1, issuer)
+		mats[kMultiInter][p] = material{file: pki.PEM(c.Cert, c2.Cert), certs: []*x509.Certificate{c.Cert, c2.Cert}}
 	}
 	for _, n := range decoyNames {
 		decoys = append(decoys, ca("c13 decoy "+n, 0, nil).Cert)
@@ -254,6 +269,12 @@ func buildMaterial() error {
 		}
 		if c := mats[kInter][p].certs[0]; !c.IsCA || selfSigned(c) || c.CheckSignatureFrom(issuer.Cert) != nil {
 			return fmt.Errorf("material intermediate-ca/%d mislabelled", p)
+		}
+		if m := mats[kMultiLeaf][p].certs; !m[0].IsCA || !selfSigned(m[0]) || m[1].IsCA || selfSigned(m[1]) {
+			return fmt.Errorf("material pem-ca+leaf-issued-by-ca/%d mislabelled", p)
+		}
+		if m := mats[kMultiInter][p].certs; !m[0].IsCA || !selfSigned(m[0]) || !m[1].IsCA || selfSigned(m[1]) {
+			return fmt.Errorf("material pem-ca+intermediate-ca/%d mislabelled", p)
 		}
 	}
 	return nil
@@ -289,12 +310,16 @@ func sequences(n, maxLen int) [][]int {
 		}
 	}
 	rec(nil)
+	// shortest first: the first (= reported) case of a violation key is a minimal one
+	sort.SliceStable(out, func(a, b int) bool { return len(out[a]) < len(out[b]) })
 	return out
 }
 
 // ---------------------------------------------------------------- generator: description -> disk
 
-func within(p, base string) bool { return p == base || strings.HasPrefix(p, base+string(filepath.Separator)) }
+func within(p, base string) bool {
+	return p == base || strings.HasPrefix(p, base+string(filepath.Separator))
+}
 
 func entryFileName(pos, k int) string { return fmt.Sprintf("f%d-%s", pos, kinds[k].Name) }
 
@@ -694,6 +719,8 @@ func main() {
 		"the store path is <root>/truststore/x509/<type>/<name> (filepath.Join), as the property's layout anchor states",
 		"'...' is a plain file name (ordinary directory entry); a self-signed non-CA certificate in a tsa store is not classified by the statement (either outcome accepted, exact set still demanded)",
 		"the returned certificates are judged as a multiset of raw encodings; file-name order is recorded, not demanded",
+		"a store meeting every stated condition must load (positive controls; refusal = load/refused-valid-store:...)",
+		"entry alphabet = DESIGN's twelve kinds + two multi-certificate files whose second certificate is the bad one",
 		"we run as root: permission faults (unreadable file/directory) are not produced",
 		"a panic of the loader is an infrastructure error",
 	}
